@@ -18,11 +18,14 @@ CONSTANTS Depth2,      \* TRUE: also all trees of depth 2
           SampleMod,   \* emit / check only trees whose index % SampleMod = SampleRes (1 = all)
           SampleRes
 
+\* (the last one is no literal: a variable nobody has set - evaluating it is a fault, so an operand
+\*  built on it fails IF it is evaluated, and is harmless where a lazy operator skips it)
+UnsetVar == [k |-> "var", v |-> "unsetv"]
 LeafLits == {[k |-> "num", n |-> 3, d |-> 2], [k |-> "num", n |-> 2, d |-> 1],
              [k |-> "bool", b |-> TRUE], [k |-> "bool", b |-> FALSE],
-             [k |-> "str", s |-> "a"], [k |-> "str", s |-> "b"]}
+             [k |-> "str", s |-> "a"], [k |-> "str", s |-> "b"], UnsetVar}
 SmallLits == {[k |-> "num", n |-> 3, d |-> 2], [k |-> "bool", b |-> TRUE], [k |-> "bool", b |-> FALSE],
-              [k |-> "str", s |-> "a"]}
+              [k |-> "str", s |-> "a"], UnsetVar}
 BinOps == {"mul", "div", "mod", "add", "sub", "lt", "le", "gt", "ge", "eq", "ne", "and", "or", "xor"}
 
 Leaf(name, lit) == [k |-> "call", fn |-> name, args |-> <<lit>>]
@@ -68,9 +71,10 @@ EnvX == [store |-> [x \in {} |-> Unset], visits |-> [x \in {} |-> 0], nodes |-> 
 Res == Eval(e, EnvX)
 
 \* ------------------------------------------------------------------ typing table
-TypeOfLit(l) == CASE l.k = "num" -> "n" [] l.k = "bool" -> "b" [] l.k = "str" -> "s"
+TypeOfLit(l) == CASE l.k = "num" -> "n" [] l.k = "bool" -> "b" [] l.k = "str" -> "s" [] l.k = "var" -> "x"
 \* the operand type pairs on which an operator is defined
 Defined(op, ta, tb) ==
+  ta # "x" /\ tb # "x" /\
   CASE op \in {"mul", "div", "mod", "sub", "lt", "le", "gt", "ge"} -> ta = "n" /\ tb = "n"
     [] op = "add" -> (ta = "n" /\ tb = "n") \/ (ta = "s" /\ tb = "s")
     [] op \in {"eq", "ne"} -> ta = tb
@@ -101,6 +105,11 @@ IsSubseq(a, b) == IF a = <<>> THEN TRUE ELSE IF b = <<>> THEN FALSE
                   ELSE IF Head(a) = Head(b) THEN IsSubseq(Tail(a), Tail(b)) ELSE IsSubseq(a, Tail(b))
 ArgsOnceLeftToRight == IsSubseq(Names(Res.log), LeafNames(e))
 \* and/or: the right operand's probes run iff the left operand evaluated to a non-deciding boolean
+RECURSIVE FirstLeafHealthy(_)
+FirstLeafHealthy(x) == CASE x.k = "call" -> x.args[1].k # "var"
+                         [] x.k = "bin" -> FirstLeafHealthy(x.l)
+                         [] x.k \in {"neg", "not"} -> FirstLeafHealthy(x.a)
+                         [] OTHER -> TRUE
 RECURSIVE LazyOK(_)
 LazyOK(x) ==
   CASE x.k = "bin" ->
@@ -108,7 +117,7 @@ LazyOK(x) ==
              rightRan == \E i \in DOMAIN Eval(x, EnvX).log : \E j \in DOMAIN LeafNames(x.r) : Eval(x, EnvX).log[i].name = LeafNames(x.r)[j]
          IN /\ LazyOK(x.l) /\ LazyOK(x.r)
             /\ (x.op \in {"and", "or"} /\ l.st = "ok" /\ IsBool(l.v) /\ l.v.b = (x.op = "or")) => ~rightRan
-            /\ (l.st = "ok" /\ ~(x.op \in {"and", "or"} /\ (~IsBool(l.v) \/ l.v.b = (x.op = "or")))) => rightRan
+            /\ (l.st = "ok" /\ FirstLeafHealthy(x.r) /\ ~(x.op \in {"and", "or"} /\ (~IsBool(l.v) \/ l.v.b = (x.op = "or")))) => rightRan
     [] x.k \in {"neg", "not"} -> LazyOK(x.a)
     [] OTHER -> TRUE
 ShortCircuit == LazyOK(e)
@@ -130,6 +139,7 @@ Sym(op, words) ==
     [] op = "xor" -> IF words THEN "xor" ELSE "^"
 LitText(l) == CASE l.k = "num" -> Display(Num(l.n, l.d)) [] l.k = "bool" -> (IF l.b THEN "true" ELSE "false")
                 [] l.k = "str" -> "\"" \o l.s \o "\""
+                [] l.k = "var" -> "$" \o l.v
 Paren(t) == "(" \o t \o ")"
 RECURSIVE PrintE(_, _, _)
 \* full = TRUE: every operator application is parenthesised; else only where precedence and
